@@ -6,6 +6,14 @@
 #![allow(unused, clippy::all)]
 
 pub mod util;
+pub mod c03;
+pub mod c06;
 pub mod c07;
+pub mod c08;
+pub mod c09;
+pub mod c10;
+pub mod c15;
+pub mod c18;
+pub mod c19;
 
 include!("registry.rs");
